@@ -53,6 +53,7 @@ func TestSim(t *testing.T) {
 // stopped, so the bubble never drains; when the simulation is over the bubble's root goroutine parks on a
 // channel from OUTSIDE the bubble (not durably blocking => the fake clock freezes) and the run returns.
 func run(t *testing.T, r *core.R) {
+	r.FaultDecl("server_goroutine_held_at_binsnap-write-start", "server_goroutine_held_at_stream-snapshot-start", "server_goroutine_held_at_delta-next-crumb")
 	r.FaultDecl("stall_s2c", "stall_c2s", "fragmented_delivery", "reset_in_handshake", "reset_in_snapshot", "reset_in_deltas",
 		"reset_after_partial_delivery", "connect_refused", "connect_blackholed", "half_open", "governor_limit", "client_stopped",
 		"slow_client_callbacks", "finite_send_buffer", "status_flap", "slow_reader_scenario")
@@ -109,9 +110,21 @@ type crumbInfo struct {
 	ts  time.Time
 }
 
+// heldYield is a server goroutine parked at one of the simYield points (verif hook in typha/pkg/syncserver).
+type heldYield struct {
+	point string
+	ch    chan struct{}
+}
+
 type harness struct {
 	r  *core.R
 	mu sync.Mutex // guards everything below that client goroutines / the log hook touch
+
+	// yield seam: the harness arms the next n yields (a draw it makes itself, between two actions); a server
+	// goroutine that reaches an armed yield parks until a later action releases it, so that cache publications
+	// and other connections' progress fall between its read of a breadcrumb and its use of it
+	yieldArm int
+	held     []heldYield
 
 	net    *simnet.Net
 	cache  *snapcache.Cache
@@ -434,6 +447,21 @@ func (h *harness) checkInSync(i *inc) {
 // reordering of two SUT goroutines inside one window (the Go scheduler's 10 ms cooperative preemption fires
 // on a loaded machine) would shift the stream for the rest of the run and, through ticker jitter, change the
 // whole execution; with it, a window's reordering can only matter through what it did inside that window.
+// onYield is the simYield hook: called on server goroutines at the points named in typha/pkg/syncserver.
+func (h *harness) onYield(point string) {
+	h.mu.Lock()
+	if h.quiesce || h.yieldArm == 0 {
+		h.mu.Unlock()
+		return
+	}
+	h.yieldArm--
+	y := heldYield{point: point, ch: make(chan struct{})}
+	h.held = append(h.held, y)
+	h.mu.Unlock()
+	h.r.Fault("server_goroutine_held_at_" + point)
+	<-y.ch
+}
+
 func (h *harness) settle() {
 	synctest.Wait()
 	h.sub++
@@ -687,6 +715,7 @@ func simulate(r *core.R) {
 	// ---- the system under test
 	h.net = simnet.New()
 	syncserver.SetSimListen(func(addr string) net.Listener { return h.net.Listen(5473) })
+	syncserver.SetSimYield(h.onYield)
 	syncclient.SetSimDial(func(addr string) (net.Conn, error) { return h.net.Dial(addr) })
 	ctx, cancelAll := context.WithCancel(context.Background())
 	_ = cancelAll
@@ -982,6 +1011,20 @@ func simulate(r *core.R) {
 	// advance moves the fake clock; it never lets a ping tick happen while a server-side writer may be
 	// blocked holding the connection's write lock (a mutex wait is not durably blocking: the bubble would hang).
 	advance := func(d time.Duration) {
+		// A held server goroutine stands for a scheduling delay, not for elapsed time: everybody is let go before
+		// the clock moves, so holds only reorder work inside one simulated instant.
+		h.mu.Lock()
+		h.yieldArm = 0
+		held := h.held
+		h.held = nil
+		h.mu.Unlock()
+		for _, y := range held {
+			r.Logf("release server goroutine held at %s (clock about to advance)", y.point)
+			close(y.ch)
+		}
+		if len(held) > 0 {
+			h.settle()
+		}
 		for d > 0 {
 			step := d
 			now := time.Now()
@@ -1232,7 +1275,21 @@ func simulate(r *core.R) {
 			r.Op("stop client %s", s.cur.name)
 			stopClient(s.cur)
 		}},
+		{10, func() { // let the longest-held server goroutine go on
+			h.mu.Lock()
+			if len(h.held) == 0 {
+				h.mu.Unlock()
+				r.Logf("release held goroutine: none held")
+				return
+			}
+			y := h.held[0]
+			h.held = h.held[1:]
+			h.mu.Unlock()
+			r.Logf("release server goroutine held at %s", y.point)
+			close(y.ch)
+		}},
 	}
+	pYield := src.Intn(160, "p_yield")
 	ws := weights(acts)
 	for step := 0; step < nSteps; step++ {
 		h.act++
@@ -1251,6 +1308,11 @@ func simulate(r *core.R) {
 				}
 			}
 		}
+		h.mu.Lock()
+		if h.yieldArm == 0 && src.Chance(pYield, "yield_arm") {
+			h.yieldArm = 1
+		}
+		h.mu.Unlock()
 		acts[src.Weighted(ws, "sched_pick")].fn()
 	}
 
@@ -1261,6 +1323,12 @@ func simulate(r *core.R) {
 	r.Logf("---- quiesce")
 	h.mu.Lock()
 	h.quiesce = true
+	h.yieldArm = 0
+	for _, y := range h.held {
+		r.Logf("release server goroutine held at %s", y.point)
+		close(y.ch)
+	}
+	h.held = nil
 	h.mu.Unlock()
 	for _, ps := range livePairs() {
 		unbound(ps)
